@@ -89,6 +89,11 @@ chk("C18", "exploration",
     "modes/mtimes are not part of the property; refcar decodes the header",
     "runtime monitoring: round-trip tree-equality oracle over black-box executions", "DESIGN.md §6 C18")
 
+chk("C08", "exploration",
+    "Runtime monitoring under the Go race detector: batches of short concurrent histories (2-16 goroutines x 3-10 ops over 8-32 keys on one shared blockstore.ReadWrite / storage.StorageCar / DeferredCarWriter, with a racing Finalize, fast/slow/cancelled listing consumers and yields injected between section writes) run in a child built with -race; monitors: every race report (normalised to the innermost go-car frame pair), per-key porcupine linearizability of the recorded call/return history against the set model with listings expanded to per-key observations, interval rules tying closed-errors to the terminal operation, a bounded-progress deadlock monitor, and a reference decode of the finalized file (each acknowledged block exactly once, nothing else). Held on the interleavings produced; evidence counts distinct interleaving signatures and overlapping op-type pairs.",
+    "race detector is happens-before based (finds a racy pair only if both accesses ran); linearizability only over observed schedules; trusts porcupine v1.3.0, refcar, the logical clock (one atomic counter)",
+    "runtime monitoring: Go race detector + recorded-history linearizability checking (porcupine) + final-state conservation check", "DESIGN.md §6 C08")
+
 NOT_YET = {}
 
 def main():
